@@ -344,3 +344,47 @@ def ball_footprint(M, r="$r", radius="radius", binds=None):
                     binds.update(b)
                 return True
     return False
+
+
+DASK_NAMING_CALLEES = {"from_delayed", "from_array", "delayed", "map_blocks", "blockwise", "from_zarr", "stack", "concatenate"}
+UNIQUE_TOKENS = {"tokenize", "uuid4", "uuid1", "token_hex", "id"}
+
+
+def dask_key_obligations(model, rep, clause, rule="KEY"):
+    """Graph keys.  Arrays and tasks of different loaders are evaluated in one dask graph (BatchLoader stacks its sub-loaders' tasks, LoaderGroup computes all
+    groups at once); dask merges graph entries that carry the same key.  dask's own generated keys are unique.  An explicit key (``dask_key_name=``, or ``name=`` of
+    from_delayed / from_array / delayed / map_blocks) is used verbatim, so it must contain a unique token - a key built from constants and a per-loader running
+    index is shared by the i-th task of every loader, and one loader's sub-tomograms then replace another's.  `name=False` (no hashing, random name) is fine."""
+    n = 0
+    for fn in model.all_functions:
+        for c in ast.walk(fn.node):
+            if not isinstance(c, ast.Call):
+                continue
+            last = (dotted(c.func) or "").rsplit(".", 1)[-1] if not isinstance(c.func, ast.Call) else "<call>"
+            is_dask_site = last in ("from_delayed", "from_array", "delayed", "map_blocks") or isinstance(c.func, ast.Call) and (dotted(c.func.func) or "").rsplit(".", 1)[-1] == "delayed"
+            kws = [k for k in c.keywords if k.arg == "dask_key_name" or (k.arg == "name" and last in DASK_NAMING_CALLEES)]
+            if is_dask_site or kws:
+                if not fn.module.relpath.startswith("acryo/"):
+                    continue
+                n += 1
+                rep.instance(rule + ".site", fn.loc(c))
+            for k in kws:
+                v = k.value
+                if isinstance(v, ast.Constant) and v.value in (False, None):
+                    continue
+                names = set()
+                for x in ast.walk(v):
+                    if isinstance(x, ast.Call):
+                        names.add((dotted(x.func) or "").rsplit(".", 1)[-1])
+                # one level of local definitions
+                for x in ast.walk(v):
+                    if isinstance(x, ast.Name):
+                        for st in ast.walk(fn.node):
+                            if isinstance(st, ast.Assign) and any(isinstance(t, ast.Name) and t.id == x.id for t in st.targets):
+                                for y in ast.walk(st.value):
+                                    if isinstance(y, ast.Call):
+                                        names.add((dotted(y.func) or "").rsplit(".", 1)[-1])
+                ok = bool(names & UNIQUE_TOKENS)
+                rep.ob(rule, fn.anchor, "an explicit dask key contains a unique token (keys are used verbatim and merged across the loaders of one graph)", ok,
+                       f"`{k.arg}={norm_src(v)[:60]}` is the same for the corresponding task of every loader", node=c, fn=fn, clause=clause)
+    return n
